@@ -356,6 +356,8 @@ impl DtlsTransport {
         };
 
         let epoch = self.inner.write_epoch.load(Ordering::SeqCst);
+        #[cfg(rustrtc_verif)]
+        crate::verif_hooks::dtls::publish_point(Arc::as_ptr(&self.inner.state) as usize, 4);
         let seq = self.inner.write_seq.fetch_add(1, Ordering::SeqCst);
         let full_seq = ((epoch as u64) << 48) | seq;
 
